@@ -20,6 +20,9 @@ pub fn case(i: u64, seed: u64) -> Scenario {
     k /= 2;
     let mut sc = Scenario::basic(mix(seed ^ 0xc15, k), 2);
     sc.fps = fps;
+    // desync detection off / every frame / every 5th / every 12th: checksum reports share the endpoint's
+    // timers and send queue with the quality reports the estimates are built from
+    sc.desync = [0u8, 1, 5, 12][(mix(seed ^ 0xd5c, i) % 4) as usize];
     sc.max_pred = 40;
     sc.sched = 0;
     sc.fine_poll = true;
